@@ -35,7 +35,10 @@ def gen_put(rng, nargs=None, allow_dots=True, allow_missing=True, allow_mount=Tr
     if allow_mount and free_vols and rng.random() < 0.15:
         m = rng.choice(free_vols)
         nodes.append(['f', m + '/keep_me', 'on the volume'])
-        args.insert(rng.randint(0, len(args)), {'arg': m + rng.choice(['', '/']), 'kind': 'mount', 'entry': m, 'expect': 'refuse-untouched'})
+        spelled = m + rng.choice(['', '/'])
+        if cwd == '/' and rng.random() < 0.5:
+            spelled = rng.choice(['', './']) + spelled.lstrip('/')        # the mount point named relative to the working directory
+        args.insert(rng.randint(0, len(args)), {'arg': spelled, 'kind': 'mount', 'entry': m, 'expect': 'refuse-untouched'})
     if allow_bad_utf8 and rng.random() < 0.12:
         bad = lay.home + '/bad\udcff\udcfe'
         nodes.append(['f', bad, 'undecodable name'])
@@ -55,9 +58,12 @@ def gen_put(rng, nargs=None, allow_dots=True, allow_missing=True, allow_mount=Tr
                         tds.append(lay.top2(m))
             for td in tds:
                 for nm in [v['name']] + ([v['name'] + '_1'] if rng.random() < 0.5 else []):
-                    k = rng.choice(['pair', 'orphan_f', 'orphan_d', 'orphan_l', 'info_only'])
+                    k = rng.choice(['pair', 'pair_l', 'orphan_f', 'orphan_d', 'orphan_l', 'info_only'])
                     if k == 'pair':
                         nodes += scen.entry(td, nm, '/old/' + nm, '2001-01-01T00:00:00', rng.choice(['f', 'd']))
+                    elif k == 'pair_l':
+                        # a complete entry whose payload is a dangling symbolic link: os.path.exists() does not see it
+                        nodes += scen.entry(td, nm, '/old/' + nm, '2001-01-01T00:00:00', 'l', data='dangling/target')
                     elif k == 'orphan_f':
                         nodes += [['f', td + '/files/' + nm, 'old orphan'], ['d', td + '/info', 0o700]]
                     elif k == 'orphan_d':
@@ -134,6 +140,24 @@ def _nodirtime(t):
     return {p: (v[:3] if v[0] in ('d', 'l') else v) for p, v in t.items()}
 
 
+def recorded_location_ok(info, td, ent_p, meta):
+    """Path= of a new entry: absolute original location in the home trash; relative to the top directory in $top/.Trash/$uid and
+    $top/.Trash-$uid ('/' as top directory included)"""
+    import re
+    from urllib.parse import unquote_to_bytes
+    line = [l for l in bytes(info).split(b'\n') if l.startswith(b'Path=')]
+    if not line:
+        return False
+    val = os.fsdecode(unquote_to_bytes(line[0][5:]))
+    if td == meta.get('lay_home_trash'):
+        return val == ent_p
+    m = re.match(r'^(.*)/\.Trash(-\d+|/\d+)$', td)
+    if not m:
+        return True                                 # some other directory (--trash-dir): not judged here
+    top = m.group(1) or '/'
+    return not val.startswith('/') and os.path.join(top, val) == ent_p
+
+
 def conservation(run, scn, meta, res, section, step_index=0, allow_stray_if_refused=False, prop='C01'):
     """the C01 dichotomy on one finished trash-put run; returns per-argument outcomes ['trashed'|'untouched'|'violated']"""
     before = res['before'] if step_index == 0 else res['steps'][step_index - 1]['after']
@@ -155,18 +179,27 @@ def conservation(run, scn, meta, res, section, step_index=0, allow_stray_if_refu
             outcomes.append('none')
             continue
         found = None
-        for td, name in pairs:
-            if (td, name) in used:
-                continue
-            if loose(sandbox.subtree(after, td + '/files/' + name)) == loose(orig):
+        cands = [(td, name) for td, name in pairs if (td, name) not in used
+                 and loose(sandbox.subtree(after, td + '/files/' + name)) == loose(orig)]
+        # several arguments can have identical content: prefer the pair whose info names this argument
+        for td, name in cands:
+            inf = engine.entries_of(after, td)[name]['info']
+            if engine.info_parseable(inf) and recorded_location_ok(inf, td, ent_p, meta):
                 found = (td, name)
                 break
+        if found is None and cands:
+            found = cands[0]
         if found and not now:
             used.add(found)
             info = engine.entries_of(after, found[0])[found[1]]['info']
             if not engine.info_parseable(info):
                 run.fail('oracle', 'the .trashinfo of a trashed entry is not complete/parseable',
                          dict(case, arg=esc(a['arg']), info=esc(info) if isinstance(info, bytes) else info), key='bad-info', section=section)
+                outcomes.append('violated')
+            elif not recorded_location_ok(info, found[0], ent_p, meta):
+                run.fail('oracle', 'the Path recorded for a trashed entry is not its original location in the form the spec prescribes for this '
+                         'trash directory (absolute in the home trash, relative to the top directory elsewhere)',
+                         dict(case, arg=esc(a['arg']), trash_dir=found[0], info=esc(info), entry=esc(ent_p)), key='bad-path', section=section)
                 outcomes.append('violated')
             else:
                 outcomes.append('trashed')
@@ -178,6 +211,19 @@ def conservation(run, scn, meta, res, section, step_index=0, allow_stray_if_refu
                           new_pairs=[(t, esc(n)) for t, n in pairs], orphans=[(t, esc(n)) for t, n in orphans]),
                      key='half-trashed:' + a['kind'], section=section)
             outcomes.append('violated')
+    # what was in the trash before stays exactly as it was (trash-put only adds): entries with an info file always; payloads
+    # without info too, unless they are invisible to os.path.exists (a dangling symbolic link: stated exception, C04)
+    for td in engine.trash_dirs_in(before):
+        eb, ea = engine.entries_of(before, td), engine.entries_of(after, td)
+        for name, e in eb.items():
+            if ea.get(name) == e:
+                continue
+            if e['info'] is None and e['payload'] is not None and list(e['payload'].values())[0][0] == 'l':
+                continue
+            run.fail('oracle', 'trash-put changed or removed something that was already in the trash',
+                     dict(case, trash_dir=td, entry=esc(name), before=str(e)[:200], after=str(ea.get(name))[:200]),
+                     key='existing-entry-changed', section=section)
+            break
     left = [p for p in pairs if p not in used]
     if orphans:
         run.fail('oracle', 'trash-put left a payload without .trashinfo in a trash directory',
